@@ -99,7 +99,7 @@ def run(tier, seed, replay=None):
         texts += [('chain', t) for t in allch]
         rep.extra['exhaustive_binder_chains_depth_le5'] = len(allch)
     g = cc.Gen(rng)
-    nrand = 150 if tier == 'quick' else 4000
+    nrand = 150 if tier == 'quick' else 6000
     for _ in range(nrand):
         prog = g.program(rng.choice([2, 3, 4]))
         t = cc.render(prog)
